@@ -25,7 +25,14 @@ fn one(c: &mut Ctx, lat: f64, lon: f64, class: &'static str) {
     let o = cpr::encode(lat, lon, 1, false);
     let me = airborne_msg(e.yz, e.xz, false);
     let mo = airborne_msg(o.yz, o.xz, true);
-    let near_edge = geo::dist_to_transition(e.rlat, &c.tr) < 1e-7 || geo::dist_to_transition(o.rlat, &c.tr) < 1e-7;
+    // every transition latitude but one is irrational, so a recovered (lattice) latitude never equals it and the
+    // guard band only absorbs table-vs-formula rounding. The exception is 87 deg exactly, which the even lattice
+    // does hit (6 deg * 14.5) and for which the standard states NL = 2: that point is judged.
+    let fuzzy = |x: f64| geo::dist_to_transition(x, &c.tr) < 1e-7 && x.abs() != 87.0;
+    let near_edge = fuzzy(e.rlat) || fuzzy(o.rlat);
+    if e.rlat.abs() == 87.0 {
+        c.r.class("lattice:even-latitude-exactly-87");
+    }
     let same_band = e.nl_rlat == o.nl_rlat;
     let hemi = if lat < 0.0 { 1 } else { 0 };
     c.nl_seen[hemi][e.nl_rlat as usize] += 1;
@@ -83,13 +90,20 @@ fn one(c: &mut Ctx, lat: f64, lon: f64, class: &'static str) {
 
 pub fn run(a: &Args, r: &mut Report) {
     r.rule = "true point -> independent encoder (even and odd) -> real airborne_position in both orders + same-parity pairs. Points: area-uniform, latitude-uniform, dense +-0.01 deg sweeps of all 58 NL transition latitudes in both hemispheres, multiples of 6 and 360/59 deg, poles, equator, lon 0 / -180 / just below 180. distinct = distinct (even,odd,order) code tuples decoded within 10 m".into();
-    r.assumptions.push("samples whose recovered latitude lies within 1e-7 deg of an NL transition are not judged for the None/Some clause (table vs closed-form NL rounding)".into());
+    r.assumptions.push("samples whose recovered latitude lies within 1e-7 deg of an NL transition are not judged for the None/Some clause (table vs closed-form NL rounding); 87 deg exactly, which the even lattice hits and the standard defines (NL = 2), is judged".into());
     let tr = geo::transitions();
     let mut c = Ctx { r, tr: tr.clone(), nl_seen: [[0; 60]; 2], some: 0, none_justified: 0, edge_skipped: 0, max_err: 0.0 };
     if let Some(p) = &a.replay {
         let v: serde_json::Value = serde_json::from_str(&std::fs::read_to_string(p).unwrap()).unwrap();
         one(&mut c, v["replay"]["lat"].as_f64().unwrap(), v["replay"]["lon"].as_f64().unwrap(), "replay");
         return;
+    }
+    // the one transition the lattice hits exactly
+    for k in 0..200 {
+        let lon = -180.0 + 1.8 * k as f64 + 0.01 * a.shard as f64;
+        for lat in [87.0, -87.0, 87.0 - 1e-5, -87.0 + 1e-5, 87.0 + 1e-5] {
+            one(&mut c, lat, lon, "sweep:87-exactly");
+        }
     }
     let mut rng = Rng::new(a.seed, a.shard, "C04");
     let n = a.budget(1_600_000, 400_000_000);
